@@ -60,7 +60,8 @@ def run_known_probes(ctx, footprint):
         exp = k["expect"]  # dict(line=<script op index>, impl_obs_prefix=..)
         hit = False
         for (op, obs) in impl:
-            if " ".join(op).startswith(exp["op_prefix"]) and obs.startswith(exp["impl_obs_prefix"]):
+            if " ".join(op).startswith(exp["op_prefix"]) and obs.startswith(exp.get("impl_obs_prefix", "")) \
+                    and exp.get("impl_obs_contains", "") in obs:
                 hit = True
         if cmp_["corr"] or cmp_["incomplete"]:
             ctx.violation(f"known-finding probe {k['key']}: implementation and model disagree",
@@ -596,3 +597,102 @@ REGISTRY["C11"] = dict(
     replay=conc_replay(follow_oracle("C11")),
     level_text="(see Props/C11.v) follow options over the transition system of Store::read/append", level_note=TRUSTED,
     assumptions=[])
+
+
+# ---------------------------------------------------------------------------------------------
+# Engine K (crash)
+from . import crashengine as K
+
+
+def crash_workload(r, n_ops):
+    big_meta = '{"m":"' + "v" * 9000 + '"}'
+    lines = [f"append - {S.xh(S.XS_CONTEXT)} - - -"]
+    frames = [0]
+    ctxs = ["-", "@0"]
+    topics = ["a", "ab", "b"]
+    for i in range(n_ops):
+        k = r.random()
+        if k < 0.55:
+            ttl = r.choice(["-", "-", "forever", "head:1", "head:2", "time:%x" % (2 ** 40)])
+            content = r.choice(["-", "-", S.xh(b"hello"), S.xh(b"z" * 9000), S.xh(bytes([r.randrange(256) for _ in range(20)]))])
+            meta = r.choice(["-", S.xh('{"k":1}'), S.xh(big_meta)])
+            lines.append(f"append {r.choice(ctxs)} {S.xh(r.choice(topics))} {content} {meta} {ttl}")
+            frames.append(len(lines) - 1)
+        elif k < 0.65:
+            lines.append(f"append - {S.xh(S.XS_CONTEXT)} - - -")
+            ctxs.append(f"@{len(lines) - 1}")
+            frames.append(len(lines) - 1)
+        elif k < 0.78:
+            lines.append(f"import #{r.randrange(1, 2 ** 30):x} {r.choice(ctxs)} {S.xh(r.choice(topics))} - {r.choice(['-', S.xh(big_meta)])} -")
+            frames.append(len(lines) - 1)
+        elif k < 0.9 and frames:
+            lines.append(f"remove @{r.choice(frames)}")
+        else:
+            lines.append(r.choice(["gcstep", "drain"]))
+    return lines
+
+
+def c04_run(which):
+    def run(ctx):
+        K.build_shim()
+        n_w = 3 if ctx.tier == "quick" else 40
+        variants = ("kill", "power", "torn1", "torn2", "torn3", "torn2p")
+        tot, kinds, states = 0, {}, {}
+        samples = []
+        for w in range(n_w):
+            script = crash_workload(random.Random(ctx.rnd.getrandbits(64)), ctx.rnd.randrange(7, 13))
+            r = K.run_workload(script, variants=variants)
+            if r.get("error"):
+                ctx.violation("crash harness: " + r["error"], dict(engine="K", script=script, theorem_or_correspondence="engine K"), no_input=True)
+                continue
+            if w == 0:
+                samples.append(dict(script=script[:8], tracked_calls_of_workload=r["total"] - r["n0"], call_kinds=r["kinds"][:20]))
+            for x in r["results"]:
+                tot += 1
+                states[x.get("state") or x["kind"]] = states.get(x.get("state") or x["kind"], 0) + 1
+                if x["kind"] == "violation":
+                    ctx.violation(("torn write, " if x.get("torn") else "") + ("power loss: " if x.get("power") else "process kill: ") + x["what"][:700],
+                                  dict(engine="K", script=script, crash_at=x["n"], torn=x.get("torn"), power=x.get("power"),
+                                       acked=x.get("acked"), inflight=x.get("inflight")))
+                elif x["kind"] == "harness-error":
+                    ctx.violation(f"crash harness error at call {x['n']}: rc={x.get('rc')} {x.get('err', '')[-300:]}",
+                                  dict(engine="K", script=script, theorem_or_correspondence="engine K"), no_input=True)
+        ctx.coverage.update(dict(
+            evaluations=tot, distinct_nontrivial=tot - states.get("no-crash", 0),
+            rule="one evaluation = one crash image: a generated workload (append/import/remove/GC, small and >8KiB frames, "
+                 "content in CAS) is killed at one tracked system call on the store directory (write/pwrite/fsync/fdatasync/"
+                 "rename/ftruncate/creat/unlink; variants: process kill, power loss = un-fsynced bytes zeroed, torn write at "
+                 "1/4, 2/4, 3/4 of the buffer), then reopened by a fresh process and fully observed; the survivor must open, be "
+                 "self-consistent (by id <-> in stream <-> in its context <-> head), hold the content of every hashed frame "
+                 "(kill images), and equal the model state after k or k+1 operations with every acknowledged operation included",
+            fault_points=tot, outcome_histogram=states, workloads=n_w, samples=samples or [dict(note="no workload ran")]))
+    return run
+
+
+REGISTRY["C04"] = dict(
+    prop_file="Props/C04.v", engine="K", run=c04_run("C04"),
+    replay=lambda ctx, obj: c04_replay(ctx, obj),
+    level_text="Coq: over a journal model of the storage stack (user buffer / OS cache / disk; recovery replays the complete "
+               "batches) the xs protocol - ONE batch over the three partitions per insert/remove, acknowledged after "
+               "persist(SyncAll) - gives: at every crash instant inside operation k the recovered state is the state after k "
+               "or k+1 operations (process kill and power loss), acknowledged operations are always included, and the "
+               "recovered partitions are those of the store model (hence by-id/in-context/under-topic agree, C05). Dropping "
+               "the persist is refuted by a computed witness. Tie + validation of the journal model against real fjall "
+               "recovery: fault enumeration at system-call granularity with an LD_PRELOAD shim (every tracked call of generated "
+               "workloads, kill / power-loss / torn-write variants), survivors reopened by a fresh process and compared with "
+               "the extracted model.",
+    level_note=TRUSTED + "What the kernel and the disk do with un-fsynced bytes is modelled (power loss is emulated by zeroing "
+               "them), not observed. The crash shim (shim/crashshim.c) and fjall's recovery code are in the trusted/modelled base.",
+    assumptions=["fjall journal = sequence of atomic batches; recovery discards an incomplete tail batch (validated on every run by the crash enumeration)",
+                 "content durability against power loss is left to cacache (not claimed, as in the property)"],
+)
+
+
+def c04_replay(ctx, obj):
+    K.build_shim()
+    x = K.run_crash_point(obj["script"], obj["crash_at"], torn=obj.get("torn") or 0, power=bool(obj.get("power")))
+    print(json.dumps(x)[:1500])
+    if x["kind"] == "violation":
+        ctx.violation("replay: " + x["what"][:600], dict(engine="K", script=obj["script"], crash_at=obj["crash_at"],
+                                                           torn=obj.get("torn"), power=obj.get("power")))
+    ctx.coverage.update(dict(evaluations=1, distinct_nontrivial=1, samples=[obj["script"][:8]]))
